@@ -713,7 +713,7 @@ func run(a *hlib.Args, e *hlib.Emitter) error {
 		file := genSmallFile(r, class)
 		cfgName := []string{"v1", "v2"}[i%2]
 		// a Builder costs about 1 GB of zeroed memory and a child process a second: few of them in the quick tier
-		sets := pickSettings(r, cfgOf(cfgName), perCase, thorough || i%2 == 0, thorough || i%3 == 1)
+		sets := pickSettings(r, cfgOf(cfgName), perCase, thorough || i%4 == 0, thorough || i%3 == 1)
 		c, err := runCompileCase(a.Scratch, class, cfgName, file, sets, true, ncpu)
 		if err != nil {
 			return err
